@@ -267,7 +267,7 @@ def run(ctx) -> None:
         nm = p.conds().get("name")
         per.setdefault((flag_kind(p), nm), []).append((t_, p))
     if not per:
-        raise AnalysisError("read_events: no record path found (the 5th constructor argument of the record's event)")
+        ctx.unresolved.append("read_events: no record path found (the 5th constructor argument of the record's event); spelling rule not decided")
     for (kind, nm), lst in sorted(per.items(), key=str):
         bad = ""
         for t_, p in lst:
